@@ -9,7 +9,7 @@ CHECKS = {}
 CHECKS["C19"] = dict(
     test="TestC19", level="exploration",
     quick=dict(shards=8, checks=20000, timeout=300),
-    thorough=dict(shards=16, checks=600000, timeout=1800, shrinktime="120s"),
+    thorough=dict(shards=16, checks=2000000, timeout=3000, shrinktime="120s"),
     rule="rapid-generated Get/Put/foreign-Put histories (sizes concentrated on k*step+-1 and 2^k+-1) on byte-slice and "
          "bytes.Buffer pools of 10 configurations incl. the DefaultPool configuration (65536), sequential under GOMAXPROCS(1) "
          "so that a Put is handed to the next matching Get, 5% with 2-4 concurrent workers; plus size-class arithmetic vs "
@@ -25,7 +25,7 @@ CHECKS["C04"] = dict(
     fuzz=[dict(name="FuzzC04", seconds=90)],
     test="TestC04", level="exploration",
     quick=dict(shards=8, checks=12000, timeout=300),
-    thorough=dict(shards=16, checks=300000, timeout=2400, shrinktime="120s"),
+    thorough=dict(shards=16, checks=350000, timeout=3000, shrinktime="120s"),
     rule="rapid-generated codec configurations (length-field widths 1/2/4/8 x byte order x offset x adjustment x strip; stand-alone "
          "prepender paired with the matching decoder incl. adjustments that put the 2^8/2^16/2^32 field capacity within reach; varint; "
          "delimiter 1-4 bytes incl. self-overlapping ones; fixed) x 1-6 payloads with boundary-biased lengths x 8 carrier types x "
@@ -45,7 +45,7 @@ CHECKS["C08"] = dict(
     fuzz=[dict(name="FuzzC08", seconds=120)],
     test="TestC08", level="fault_enumeration",
     quick=dict(shards=8, checks=15000, timeout=300),
-    thorough=dict(shards=16, checks=400000, timeout=2400, shrinktime="120s"),
+    thorough=dict(shards=16, checks=1500000, timeout=3000, shrinktime="120s"),
     rule="rapid-generated adversarial byte streams per decoder configuration (small and large max): valid frames from the reference framer "
          "interleaved with frames 1-3 bytes over max, hostile length fields (0, max, max+1, 2^k-1, sign bit, below-header, below-strip), "
          "over-long/overflowing uvarints, missing or partial delimiters and random bytes; the stream then ends at a generated cut point "
@@ -64,7 +64,7 @@ CHECKS["C16"] = dict(
     fuzz=[dict(name="FuzzC16", seconds=90)],
     test="TestC16", level="exploration",
     quick=dict(shards=8, checks=15000, timeout=300),
-    thorough=dict(shards=16, checks=500000, timeout=2400, shrinktime="120s"),
+    thorough=dict(shards=16, checks=2000000, timeout=3000, shrinktime="120s"),
     rule="rapid-generated (a) byte strings (arbitrary bytes, invalid UTF-8, NUL, sizes over pool classes) written and read through the "
          "text codec via 5 inbound carrier types; (b) JSON object trees (depth<=5; unicode/escaped/empty keys; null/bool/string/array/"
          "object; number literals incl. +-2^53+-1, 2^63-1, 2^64-1, 30-digit integers, exponents, -0, 1e400; native int64/uint64/float64) "
@@ -83,7 +83,7 @@ CHECKS["C16"] = dict(
 CHECKS["C17"] = dict(
     test="TestC17", level="exploration",
     quick=dict(shards=8, checks=25000, timeout=300),
-    thorough=dict(shards=16, checks=1000000, timeout=2400, shrinktime="120s"),
+    thorough=dict(shards=16, checks=4000000, timeout=3000, shrinktime="120s"),
     rule="rapid-generated operation sequences (Write, Writev with 0-4 segments, Flush, Read; payload sizes 0, 1, size-1, size, size+1, "
          "3*size and random around the write-buffer size) on transport.NewTransport over an in-memory net.Conn for all four wrapper "
          "variants (read/write buffer sizes from 0,1,2,7,16,17,64,4096), with the peer's bytes arriving in generated fragments and read "
@@ -99,7 +99,7 @@ CHECKS["C14"] = dict(
     fuzz=[dict(name="FuzzC14", seconds=60)],
     test="TestC14", level="exploration",
     quick=dict(shards=8, checks=6000, timeout=300),
-    thorough=dict(shards=16, checks=250000, timeout=2400, shrinktime="120s"),
+    thorough=dict(shards=16, checks=400000, timeout=3000, shrinktime="120s"),
     rule="rapid-generated messages: 14 supported carriers ([]byte, [][]byte with empty segments, *bytes.Buffer, *bytes.Reader, "
          "*strings.Reader, *net.Buffers, WriterTo with one / many writes / many writes from a reused scratch buffer, bufio.Reader, plain "
          "io.Reader, short-reading reader, reader returning data together with EOF, reader failing after k bytes) and 6 unsupported types x "
@@ -122,7 +122,7 @@ _E1_ASSUME = ["interleavings are explored at the granularity of hook points (ver
 CHECKS["C01"] = dict(
     test="TestC01", level="exploration",
     quick=dict(shards=8, checks=6000, timeout=300),
-    thorough=dict(shards=16, checks=400000, timeout=3000, shrinktime="120s"),
+    thorough=dict(shards=16, checks=4000000, timeout=3000, shrinktime="120s"),
     rule="cooperative-scheduler cases: channel kind (sync, queued blocking, queued non-blocking; queue 1,2,3,4,8) x buffered/pass-through and "
          "split-write mock transport x 1-3 (thorough 1-4) writer tasks x 1-4 (1-6) calls over the five low-level entry points, Writev with "
          "0-4 segments incl. empty ones, payload sizes 0-9, 16, 100, 1023-1025, 2047-2049, 4095-4097, 65535-65537, 70000 x a generated "
@@ -138,7 +138,7 @@ CHECKS["C01"] = dict(
 CHECKS["C02"] = dict(
     test="TestC02", level="exploration",
     quick=dict(shards=8, checks=6000, timeout=300),
-    thorough=dict(shards=16, checks=400000, timeout=3000, shrinktime="120s"),
+    thorough=dict(shards=16, checks=5000000, timeout=3000, shrinktime="120s"),
     rule="same scenario family as C01, biased to queued channels and to directed prefixes that park the sender at send.beforeFlush / "
          "t.flush / send.beforeRelease / send.afterRelease / around Writev while a writer passes its enqueue; the channel stays open and "
          "nothing else is done. Oracle at the terminal state of the harness-owned executor (no runnable task, so nothing can change any "
@@ -150,7 +150,7 @@ CHECKS["C02"] = dict(
 CHECKS["C10"] = dict(
     test="TestC10", level="exploration",
     quick=dict(shards=8, checks=6000, timeout=300),
-    thorough=dict(shards=16, checks=400000, timeout=3000, shrinktime="120s"),
+    thorough=dict(shards=16, checks=1000000, timeout=3000, shrinktime="120s"),
     env={"GOMAXPROCS": "1"},
     rule="same scenario family as C01 (all entry points and sizes over every pool class, plus ReadFrom with short-reading sources on "
          "single-writer cases), where every writer overwrites its buffer with a poison pattern as its very next step after each call "
@@ -167,7 +167,7 @@ CHECKS["C10"] = dict(
 CHECKS["C06"] = dict(
     test="TestC06", level="exploration",
     quick=dict(shards=16, checks=160, timeout=400),
-    thorough=dict(shards=16, checks=40000, timeout=3400, shrinktime="120s"),
+    thorough=dict(shards=16, checks=4000, timeout=3400, shrinktime="120s"),
     rule="cooperative-scheduler cases on queued channels (queue 1,2,3,4,6; wait-for-writes and bounded-wait mode): 1-3 writer tasks x 1-4 "
          "calls over the five entry points, then one Close (own closer task enabled only when every writer task has ended, or issued by "
          "the single writer itself) with error nil/sentinel/wrapped; generated schedule plus directed prefixes that park the sender at "
@@ -185,7 +185,7 @@ CHECKS["C06"] = dict(
 CHECKS["C11"] = dict(
     test="TestC11", level="exploration",
     quick=dict(shards=16, checks=500, timeout=400),
-    thorough=dict(shards=16, checks=80000, timeout=3400, shrinktime="120s"),
+    thorough=dict(shards=16, checks=10000, timeout=3400, shrinktime="120s"),
     rule="cooperative-scheduler cases: channel kind (sync, queued blocking/non-blocking, queue 1-8) x who closed (user Close with nil / "
          "sentinel / wrapped / io.EOF / net.Error argument; the read loop after parent-context cancellation, i.e. Close(nil); the tail "
          "handler after peer EOF or a read failure; the sender after an injected Writev failure) x optional traffic before and "
@@ -202,7 +202,7 @@ CHECKS["C11"] = dict(
 CHECKS["C18"] = dict(
     test="TestC18", level="exploration",
     quick=dict(shards=16, checks=400, timeout=400),
-    thorough=dict(shards=16, checks=60000, timeout=3400, shrinktime="120s"),
+    thorough=dict(shards=16, checks=8000, timeout=3400, shrinktime="120s"),
     rule="cooperative-scheduler cases on queued channels (queue 1-4, blocking and non-blocking mode): 1-4 writer tasks x 1-5 calls over the "
          "five entry points with background / already-cancelled / live caller contexts (a canceller task cancels the live ones at a "
          "scheduled moment), sender normal, never scheduled before the final sweep (stalled executor) or parked inside the transport's "
@@ -241,7 +241,7 @@ CHECKS["C05"] = dict(
 CHECKS["C09"] = dict(
     test="TestC09", level="exploration",
     quick=dict(shards=8, checks=2000, timeout=300),
-    thorough=dict(shards=16, checks=200000, timeout=3000, shrinktime="120s"),
+    thorough=dict(shards=16, checks=50000, timeout=3000, shrinktime="120s"),
     rule="cooperative-scheduler cases: 2-4 writer tasks each calling Channel.Write 1-4 times on a sync or queued channel, message carriers "
          "[]byte, [][]byte, *bytes.Buffer, *bytes.Reader, multi-write WriterTo, io.Reader (one chunk / several chunks / short reads), string "
          "via the text codec; sizes 1-2500 around the 1024-byte streaming chunk; pipelines: none, delimiter, delimiter+text (the README "
@@ -258,7 +258,7 @@ CHECKS["C09"] = dict(
 CHECKS["C03"] = dict(
     test="TestC03", level="exploration",
     quick=dict(shards=8, checks=15000, timeout=300),
-    thorough=dict(shards=16, checks=600000, timeout=3000, shrinktime="120s"),
+    thorough=dict(shards=16, checks=700000, timeout=3000, shrinktime="120s"),
     rule="rapid-generated build programs of 0-10 AddFirst/AddLast/AddHandler operations (every legal position -1..size-1, 1-3 handlers per "
          "call, repeated instances; illegal positions and handlers without any interface as negative cases that must panic and leave the "
          "pipeline unchanged) over a pool of 1-6 handlers whose Go types implement an arbitrary subset of the six handler interfaces (64 "
@@ -343,7 +343,7 @@ CHECKS["C12"] = dict(
     test="TestC12", level="exploration", race=True,
     env={"GORACE": "halt_on_error=0"},
     quick=dict(shards=4, checks=4, timeout=500),
-    thorough=dict(shards=8, checks=60, timeout=3400),
+    thorough=dict(shards=8, checks=300, timeout=3400),
     replay_repeat=5,
     rule="concurrent API programs run under the Go race detector (binary built with -race, real goroutines, real scheduler, real "
          "AsyncExecutor). A program = target (sync / queued blocking / queued non-blocking channel, bootstrap on a mock transport factory, "
@@ -365,7 +365,7 @@ CHECKS["C12"] = dict(
 CHECKS["C20"] = dict(
     test="TestC20", level="exploration", death_is_violation=True,
     quick=dict(shards=4, checks=2, timeout=300),
-    thorough=dict(shards=8, checks=40, timeout=3000),
+    thorough=dict(shards=8, checks=80, timeout=3400),
     replay_repeat=1,
     rule="generated timelines executed in real time (the handlers use time.Now/time.AfterFunc directly and refuse idle times below 1 s; "
          "replacing the clock would not be an add-only hook): one case = 200 independent timelines run concurrently, each on its own "
